@@ -55,9 +55,13 @@ class ConstantExpressionEvaluator:
                 value = self.context.sizeof(expr.sizeof_typ.typ)
         elif isinstance(expr, int):
             value = expr
-        else:  # pragma: no cover
-            raise NotImplementedError(str(expr))
+        else:
+            self.not_constant(expr.location)
         return value
+
+    def not_constant(self, location, what="Expression"):
+        """Report an expression which cannot be evaluated at compile time."""
+        self.context.error(f"{what} is not a compile-time constant", location)
 
     def eval_variable_access(self, expr):
         """Evaluate variable access."""
@@ -73,7 +77,7 @@ class ConstantExpressionEvaluator:
         ):
             value = self.eval_global_access(declaration)
         else:
-            raise NotImplementedError(str(expr.variable))
+            self.not_constant(expr.location, f'"{expr.variable.name}"')
         return value
 
     def eval_enum(self, declaration):
@@ -82,13 +86,13 @@ class ConstantExpressionEvaluator:
         return value
 
     def eval_global_access(self, declaration):
-        raise NotImplementedError()
+        self.not_constant(None, f'The value of "{declaration.name}"')
 
     def eval_string_literal(self, expr):
-        raise NotImplementedError()
+        self.not_constant(expr.location, "A string literal")
 
     def eval_compound_literal(self, expr):
-        raise NotImplementedError()
+        self.not_constant(expr.location, "A compound literal")
 
     def eval_cast(self, expr):
         """Evaluate cast expression."""
@@ -122,12 +126,12 @@ class ConstantExpressionEvaluator:
             value = self.convert(expr.typ, op_map[expr.op](a))
         elif expr.op == "&":
             value = self.eval_take_address(expr.a)
-        else:  # pragma: no cover
-            raise NotImplementedError(str(expr))
+        else:
+            self.not_constant(expr.location, f'The result of operator "{expr.op}"')
         return value
 
     def eval_take_address(self, expr):
-        raise NotImplementedError("take address operator: &")
+        self.not_constant(expr.location, "An address")
 
     def eval_ternop(self, expr):
         """Evaluate the conditional operator (only one branch is evaluated)."""
